@@ -291,7 +291,7 @@ class Run:
 
     # ---- the whole case
     def known_crashers(self, todo):
-        """A call inside the failure domain of a KNOWN finding that kills or blocks the run (known/C29.json) would take the rest of
+        """A call inside the failure domain of a KNOWN finding that kills or blocks the run (known_findings.json (C29)) would take the rest of
         the program with it at every size: such calls are taken out of the common program.  They are run alone for the smallest and
         the largest size of the domain only (the finding also has its own replay file)."""
         groups = {}
@@ -546,7 +546,7 @@ class Run:
         return s
 
     def features(self, p, ci):
-        """what a known finding may depend on (known/C29.json: "match": {"target": "coll:algo", "kinds": [...], "when": {...}})"""
+        """what a known finding may depend on (known_findings.json (C29): "match": {"target": "coll:algo", "kinds": [...], "when": {...}})"""
         mem = coll.members_of(self.case, p)
         f = {"p": p, "pof2": pof2(p), "p_even": p % 2 == 0, "nhosts": self.case.get("nhosts", NP),
              # one rank per host and the ranks of the communicator in the order of the world ranks (= of the hosts)
@@ -604,14 +604,8 @@ DATA_KINDS = ("wrong-result", "written-outside-typemap", "unused-recvbuf-written
 def known_entries():
     global _KNOWN
     if _KNOWN is None:
-        import json
-        import os
-        _KNOWN = []
-        path = "/verif/known/C29.json"
-        if os.path.exists(path):
-            for e in json.load(open(path))["findings"]:
-                if e.get("kind") == "known" and "match" in e:
-                    _KNOWN.append(e)
+        from .. import known
+        _KNOWN = [e for e in known.load_all() if e["property"] == "C29" and e.get("kind") == "known" and "match" in e]
     return _KNOWN
 
 
@@ -699,7 +693,7 @@ def standard_calls(collective, n_main=None, n_other=6, seed=1):
             if k != "barrier":
                 o["cnt"] = [1, "p", 3, 0, "p+1", 2][j % 6]
                 if k in coll.REDUCTIONS:
-                    # (derived datatypes in non-blocking reductions: in the "nbc" list only, see known/C29.json)
+                    # (derived datatypes in non-blocking reductions: in the "nbc" list only, see known_findings.json (C29))
                     o["ty"], o["op"] = coll.RED_PAIRS[det.next(len(coll.RED_PAIRS) - (3 if o["nb"] else 0))]
                 else:
                     o["ty"] = coll.MOVE_TYPES[det.next(len(coll.MOVE_TYPES))]
@@ -793,7 +787,7 @@ class C29(core.Prop):
             "labels `refuse:<collective>:<algorithm>:p=<p>`. Violations: wrong buffers, signals, glibc heap-corruption aborts, "
             "other aborts, deadlocks, exceptions on some ranks only, error codes. When a run dies or a call looks wrong the suspect "
             "call is re-run ALONE (own fork) and only that verdict counts; calls proven to damage the process are kept out of the "
-            "common program. Signature = <collective>:<algorithm>:<kind>:<class of (size, call)>; known findings (known/C29.json) "
+            "common program. Signature = <collective>:<algorithm>:<kind>:<class of (size, call)>; known findings (known_findings.json (C29)) "
             "declare their failure domain, a failure outside it is reported. Fixed cases: one standard call list per collective run "
             "with every algorithm at every size. Non-trivial: a judged call with p not a power of two, or count < p, or root != 0. "
             "Distinct = canonical JSON of the case.")
